@@ -39,11 +39,8 @@ func builtinMathAtan(call FunctionCall) Value {
 
 func builtinMathAtan2(call FunctionCall) Value {
 	y := call.Argument(0).float64()
-	if math.IsNaN(y) {
-		return NaNValue()
-	}
 	x := call.Argument(1).float64()
-	if math.IsNaN(x) {
+	if math.IsNaN(y) || math.IsNaN(x) {
 		return NaNValue()
 	}
 	return float64Value(math.Atan2(y, x))
